@@ -127,11 +127,20 @@ Theorem C08_lowrank_id_moves_iff_changed :
 Proof. exact lr_update_id_iff. Qed.
 Print Assumptions C08_lowrank_id_moves_iff_changed.
 
-(* scales and eigenvalues in [2^-1022, 2^1022]: every scale in use (sigma, 1/sigma, lambda^(1/2),
-   lambda^(-1/2)) is finite and strictly positive after the update *)
+(* a scale that is not strictly positive or whose reciprocal overflows, or an eigenvalue that is
+   not strictly positive, is an invalid estimate too (repair c9d2473) *)
+Theorem C08_lowrank_nonpositive_keeps_previous :
+  forall (st : lrm) (stds mean vals : list f64) (vecs : list (list f64)) (mu : list f64) (x : f64),
+    (In x stds /\ lr_scale_ok x = false) \/ (In x vals /\ lr_val_ok x = false) ->
+    lr_update st stds mean vals vecs mu = st.
+Proof. exact lr_nonpositive_keeps_previous. Qed.
+Print Assumptions C08_lowrank_nonpositive_keeps_previous.
+
+(* for EVERY input that update accepts - no range hypothesis - every scale in use afterwards
+   (sigma, 1/sigma, lambda^(1/2), lambda^(-1/2)) is finite and strictly positive *)
 Theorem C08_lowrank_scales_finite_positive :
   forall st stds mean vals vecs mu,
-    lr_gate stds mean vals vecs = true -> Forall good stds -> Forall good vals ->
+    lr_gate stds mean vals vecs = true ->
     let st' := lr_update st stds mean vals vecs mu in
     Forall finpos (lr_stds st') /\ Forall finpos (lr_inv st') /\
     match lr_inner st' with
@@ -141,15 +150,30 @@ Theorem C08_lowrank_scales_finite_positive :
 Proof. exact lr_update_scales_ok. Qed.
 Print Assumptions C08_lowrank_scales_finite_positive.
 
-(* the finite gate of `update` alone does NOT give that: a zero scale passes it *)
-Theorem C08_lowrank_gate_alone_refuted :
-  let st := {| lr_stds := [fone]; lr_inv := [fone]; lr_mean := [fzero]; lr_inner := None; lr_id := 0 |} in
-  let st' := lr_update st [fzero] [fzero] [] [] [fzero] in
-  lr_id st' = 1%Z /\ map is_finite (lr_inv st') = [false].
-Proof. exact lr_gate_admits_zero_scale. Qed.
-Print Assumptions C08_lowrank_gate_alone_refuted.
+(* hence for every history of windows and pipeline results, of any length, fed to adapt: a
+   transformation whose scales are finite and positive stays so *)
+Theorem C08_lowrank_never_degenerates :
+  forall (st : lrm) (h : list (N * option (list f64 * list f64 * list f64 * list (list f64) * list f64))),
+    lrm_ok st -> lrm_ok (fold_left (fun s cu => lr_adapt s (fst cu) (snd cu)) h st).
+Proof. exact lr_history_ok. Qed.
+Print Assumptions C08_lowrank_never_degenerates.
 
-(* what keeps a zero / infinite / NaN sigma away from `update`: rescale_points multiplies the whole
+(* the finite gate as it was before the repair is refuted: a zero eigenvalue (returned by the
+   SPD-mean pipeline for singular windows with gamma = 1e-10, witness in KNOWN_FINDINGS.json)
+   or a zero scale passed it and left an infinite inverse scale in use; the repaired gate
+   rejects both *)
+Theorem C08_lowrank_prefix_gate_refuted :
+  let st := {| lr_stds := [fone]; lr_inv := [fone]; lr_mean := [fzero]; lr_inner := None; lr_id := 0 |} in
+  let a := lr_update_prefix st [fone] [fzero] [fzero] [[fone]] [fzero] in
+  let b := lr_update_prefix st [fzero] [fzero] [] [] [fzero] in
+  (lr_id a = 1%Z /\ match lr_inner a with Some (_, vsi, _) => map is_finite vsi = [false] | None => False end) /\
+  (lr_id b = 1%Z /\ map is_finite (lr_inv b) = [false]) /\
+  lr_update st [fone] [fzero] [fzero] [[fone]] [fzero] = st /\
+  lr_update st [fzero] [fzero] [] [] [fzero] = st.
+Proof. exact lr_prefix_gate_admits_zero. Qed.
+Print Assumptions C08_lowrank_prefix_gate_refuted.
+
+(* a second line of defence in front of `update`: rescale_points multiplies the whole
    row by 1/sigma (draws) and sigma (gradients), and for EVERY entry value one of the two rows
    becomes non-finite, so the decompositions see a non-finite matrix (they fail or return
    non-finite factors - checked on the implementation - and the gate above rejects) *)
